@@ -13,6 +13,8 @@ Directives
     //@hsub "<regex>" => "<replacement>"                       same, on the header
     //@contract                 following lines go between signature and body
     //@loop <n>                 following lines go before the `{` of the n-th loop
+    //@closure <n> params=".." ret="r: T"   the n-th block-bodied closure `|..| {` of the body gets
+                                typed parameters, a named return and the following lines as its contract
     //@after "<stmt prefix>" [nth=N]   following lines go after that statement's `;`
     //@before "<stmt prefix>" [nth=N]
     //@atend                    following lines go before the body's final `}`
@@ -45,6 +47,84 @@ def _kv(argstr):
         else:
             out[part] = True
     return out
+
+
+def _return_arrow(header):
+    """match object of the `->` that introduces the fn's return type: the first arrow outside
+    all parentheses and angle brackets after the parameter list (arrows of Fn bounds inside the
+    generics or the parameter list are skipped)."""
+    i = 0
+    n = len(header)
+    par = ang = 0
+    seen_params = False
+    while i < n:
+        c = header[i]
+        if header.startswith('->', i):
+            if par == 0 and ang == 0 and seen_params:
+                return re.compile(r'->\s*').match(header, i)
+            i += 2
+            continue
+        if c == '(':
+            par += 1
+        elif c == ')':
+            par -= 1
+            if par == 0 and ang == 0:
+                seen_params = True
+        elif c == '<':
+            ang += 1
+        elif c == '>':
+            ang -= 1
+        i += 1
+    return None
+
+
+def _find_closures(body):
+    """(start, end_of_params, body_offset, expr_end) of each closure `|params| BODY` (also
+    `move |params| ..`), in source order; start..end_of_params covers `|params|`; expr_end is
+    None for a block body `{..}`, else the end offset of the expression body."""
+    toks = lex(body)
+    code = [t for t in toks if t[0] not in ('ws', 'lcomment', 'bcomment')]
+    res = []
+    ci = 0
+    while ci < len(code):
+        t = code[ci]
+        if t[0] == 'punct' and t[1] == '|':
+            prev = code[ci - 1] if ci > 0 else None
+            starts = prev is None or (prev[0] == 'punct' and prev[1] in '(,={;[') or (prev[0] == 'ident' and prev[1] in ('move', 'return'))
+            if starts:
+                cj = ci + 1
+                while cj < len(code) and not (code[cj][0] == 'punct' and code[cj][1] == '|'):
+                    cj += 1
+                if cj < len(code):
+                    nxt = code[cj + 1] if cj + 1 < len(code) else None
+                    if nxt is not None and nxt[0] == 'punct' and nxt[1] == '{':
+                        res.append((t[2], code[cj][3], nxt[2], None))
+                    elif nxt is not None:
+                        # expression-bodied closure: the body runs to the `,` / `)` that ends
+                        # the argument it is
+                        depth = 0
+                        ck = cj + 1
+                        endoff = None
+                        while ck < len(code):
+                            u = code[ck]
+                            if u[0] == 'punct':
+                                if u[1] in '([{':
+                                    depth += 1
+                                elif u[1] in ')]}':
+                                    if depth == 0:
+                                        endoff = u[2]
+                                        break
+                                    depth -= 1
+                                elif u[1] in ',;' and depth == 0:
+                                    endoff = u[2]
+                                    break
+                            ck += 1
+                        if endoff is not None:
+                            res.append((t[2], code[cj][3], nxt[2], endoff))
+                    ci = cj + 1
+                    continue
+        ci += 1
+    return res
 
 
 def _find_loops(body):
@@ -243,6 +323,12 @@ def render(template_text, flags=(), canary=False):
                     sections.append(cur)
                 elif t.startswith('//@loop '):
                     cur = ('loop', {'n': int(t[8:].split()[0])}, [])
+                    sections.append(cur)
+                elif t.startswith('//@closure '):
+                    rest = t[len('//@closure '):]
+                    n_, _, kvs = rest.partition(' ')
+                    kv = _kv(kvs)
+                    cur = ('closure', {'n': int(n_), 'params': kv.get('params', ''), 'ret': kv.get('ret', '')}, [])
                     sections.append(cur)
                 elif t.startswith('//@bodystart '):
                     cur = ('bodystart', {'n': int(t[len('//@bodystart '):].split()[0])}, [])
@@ -538,7 +624,7 @@ def _render_fn(g, args, rws, subs, hsubs, sections):
         header = re.sub(r'\bfn\s+' + re.escape(args['name']) + r'\b', 'fn ' + args['rename'], header, count=1)
     if args.get('ret'):
         # `-> T [where ..]` => `-> (r: T) [where ..]`
-        m = re.search(r'->\s*', header)
+        m = _return_arrow(header)
         if m:
             rest = header[m.end():]
             w = re.search(r'\bwhere\b', rest)
@@ -549,6 +635,7 @@ def _render_fn(g, args, rws, subs, hsubs, sections):
             raise AnchorLost('fn %s has no return type to name' % fname)
     # ---- splices into the body (process from the back so offsets stay valid) ----
     inserts = []  # (offset, text)
+    replaces = []  # (start, end, text)
     loops = None
     for (kind, a, ls) in sections:
         txt = '\n'.join(ls) + '\n'
@@ -560,6 +647,17 @@ def _render_fn(g, args, rws, subs, hsubs, sections):
             if a['n'] < 1 or a['n'] > len(loops):
                 raise AnchorLost('fn %s has %d loops, wanted loop %d' % (fname, len(loops), a['n']))
             inserts.append((loops[a['n'] - 1], '\n' + txt))
+        elif kind == 'closure':
+            cls = _find_closures(body)
+            if a['n'] < 1 or a['n'] > len(cls):
+                raise AnchorLost('fn %s has %d closures, wanted closure %d' % (fname, len(cls), a['n']))
+            cs, ce, cb, cend = cls[a['n'] - 1]
+            replaces.append((cs, ce, '|' + a['params'] + '| -> (' + a['ret'] + ')'))
+            if cend is None:
+                inserts.append((cb, '\n' + txt))
+            else:
+                inserts.append((cb, '\n' + txt + '{ '))
+                inserts.append((cend, ' }'))
         elif kind == 'bodystart':
             if loops is None:
                 loops = _find_loops(body)
@@ -596,8 +694,9 @@ def _render_fn(g, args, rws, subs, hsubs, sections):
                 inserts.append((last_semi, '\n' + txt))
             else:
                 inserts.append((end, '\n' + txt))
-    for off, txt in sorted(inserts, key=lambda x: -x[0]):
-        body = body[:off] + txt + body[off:]
+    edits = [(off, off, txt) for off, txt in inserts] + replaces
+    for st_, en_, txt in sorted(edits, key=lambda x: (-x[0], -x[1])):
+        body = body[:st_] + txt + body[en_:]
     contract = ''
     for (kind, a, ls) in sections:
         if kind == 'contract':
